@@ -65,6 +65,7 @@ def floors(tier):
             "step:export": 300 * k,
             "step:post-processing": 300 * k,
             "post_process:off": 2,
+            "pair:on-static-field:statement-binds-nothing": 20,
             "kind:FloatAssertion": 10, "kind:ObjectAssertion": 100, "kind:IsInstanceAssertion": 10, "kind:CollectionLengthAssertion": 10,
         },
     }
@@ -117,7 +118,13 @@ def _pair_classes(stmts, k, a):
         cl.append("pair:on-other-variable")
     else:
         cl.append("pair:on-static-field")
+        if not s["bound"]:
+            cl.append("pair:on-static-field:statement-binds-nothing")
     return cl
+
+
+def _pair_kind(stmts, k, a):
+    return next((c.split(":", 1)[1] for c in _pair_classes(stmts, k, a) if c.startswith("pair:")), "other")
 
 
 def _trivial_literal(code):
@@ -256,6 +263,17 @@ def check_run(ctx, r):
                         ctx.witness(_lost_key(a, caller, "minimize", t["stmts"], k),
                                     f"{r['tag']}: `{a['code']}` on `{s['code']}` was stripped by remove_unused_variables ({caller}); the unprotected statement was then removed",
                                     {**case_info, "tid": t["tid"], "statement": s["code"], "assertion": a, "step": caller, "then": "statement removed"})
+                    elif caller is None and a["kind"] != "ExceptionAssertion":
+                        if _trivial_literal(s["code"]):
+                            ctx.anomaly("unused-literal-removed-with-its-tautological-assertion")
+                        else:
+                            # statement minimisation removed a statement together with the oracle attached to it: an oracle was
+                            # dropped silently (the minimisers must keep statements that carry a reference assertion)
+                            ctx.witness("lost:minimize:statement-removed-with-its-oracle:" + _pair_kind(t["stmts"], k, a),
+                                        f"{r['tag']}: `{a['code']}` was attached to `{s['code']}` after {base_step}; the statement is gone at the "
+                                        f"export entry although the test case is still there",
+                                        {**case_info, "tid": t["tid"], "statement": s["code"], "assertion": a, "step": "statement minimisation",
+                                         "test_at_export": [x["code"] for x in tx["stmts"]]})
                     continue
                 ctx.ok(cls=cl, distinct=f"{c['sut']}|{c['seed']}|{c['algo']}|{t['tid']}|{key}|{text}")
                 if text in have:
